@@ -149,42 +149,46 @@ def serverNameVar (r : CgiReq) : Bytes :=
 def hasHeader (hs : List (Bytes × Bytes)) (name : Bytes) : Bool :=
   hs.any fun (k, v) => eqIcase k name && !v.isEmpty
 
-def kv (k : String) (v : Bytes) : Bytes × Bytes := (ofString k, v)
+/-- an entry of the list that is only emitted under a condition -/
+def optE (c : Bool) (x : String × Bytes) : Option (String × Bytes) := if c then some x else none
 
-/-- the fixed (server-defined) part of http_cgi_headers(), in emission order -/
+/-- the fixed (server-defined) part of http_cgi_headers(), in emission order; names as
+    string literals (`cgiMeta` converts them to bytes) -/
+def cgiMetaS (o : CgiOpts) (r : CgiReq) : List (String × Bytes) :=
+  let na := !o.authorizer
+  let pi := na && !r.pathinfo.isEmpty
+  let ext := r.h2ConnectExt
+  [ optE na ("CONTENT_LENGTH", intDec r.bodyLen),
+    some ("QUERY_STRING", r.query),
+    some ("REQUEST_URI", requestUri o.stripRequestUri r.targetOrig),
+    optE (r.target != r.targetOrig) ("REDIRECT_URI", r.target),
+    optE (!r.errSaved) ("REDIRECT_STATUS", ofString "200"),
+    optE na ("SCRIPT_NAME", r.path),
+    optE pi ("PATH_INFO", r.pathinfo),
+    optE pi ("PATH_TRANSLATED", pathJoin (o.docroot.getD r.basedir) r.pathinfo),
+    some ("SCRIPT_FILENAME",
+      match o.docroot with
+      | some d => pathJoin d r.path
+      | none => if o.breakScriptFilenameForPhp then pathJoin r.physPath r.pathinfo else r.physPath),
+    some ("DOCUMENT_ROOT", o.docroot.getD r.basedir),
+    some ("REQUEST_METHOD", if ext then ofString "GET" else r.method),
+    some ("SERVER_PROTOCOL", if ext then ofString "HTTP/1.1" else versionName r.version),
+    optE (ext && !hasHeader r.headers (ofString "Sec-WebSocket-Key"))
+      ("HTTP_SEC_WEBSOCKET_KEY", ofString "MDAwMDAwMDAwMDAwMDAwMA=="),
+    optE ext ("HTTP_UPGRADE", ofString "websocket"),
+    optE ext ("HTTP_CONNECTION", ofString "upgrade"),
+    some ("SERVER_SOFTWARE", r.serverTag.getD []),
+    some ("GATEWAY_INTERFACE", ofString "CGI/1.1"),
+    some ("REQUEST_SCHEME", r.scheme),
+    optE (r.scheme == ofString "https") ("HTTPS", ofString "on"),
+    some ("SERVER_PORT", serverPort r),
+    some ("SERVER_ADDR", serverAddr r),
+    some ("SERVER_NAME", serverNameVar r),
+    some ("REMOTE_ADDR", r.remoteAddr),
+    some ("REMOTE_PORT", natDec r.remotePort) ].filterMap id
+
 def cgiMeta (o : CgiOpts) (r : CgiReq) : List (Bytes × Bytes) :=
-  (if o.authorizer then [] else [kv "CONTENT_LENGTH" (intDec r.bodyLen)]) ++
-  [kv "QUERY_STRING" r.query,
-   kv "REQUEST_URI" (requestUri o.stripRequestUri r.targetOrig)] ++
-  (if r.target ≠ r.targetOrig then [kv "REDIRECT_URI" r.target] else []) ++
-  (if r.errSaved then [] else [kv "REDIRECT_STATUS" (ofString "200")]) ++
-  (if o.authorizer then [] else
-     [kv "SCRIPT_NAME" r.path] ++
-     (if r.pathinfo.isEmpty then [] else
-        [kv "PATH_INFO" r.pathinfo,
-         kv "PATH_TRANSLATED" (pathJoin (o.docroot.getD r.basedir) r.pathinfo)])) ++
-  (match o.docroot with
-   | some d => [kv "SCRIPT_FILENAME" (pathJoin d r.path), kv "DOCUMENT_ROOT" d]
-   | none =>
-     [kv "SCRIPT_FILENAME"
-        (if o.breakScriptFilenameForPhp then pathJoin r.physPath r.pathinfo else r.physPath),
-      kv "DOCUMENT_ROOT" r.basedir]) ++
-  (if !r.h2ConnectExt then
-     [kv "REQUEST_METHOD" r.method, kv "SERVER_PROTOCOL" (versionName r.version)]
-   else
-     [kv "REQUEST_METHOD" (ofString "GET"), kv "SERVER_PROTOCOL" (ofString "HTTP/1.1")] ++
-     (if hasHeader r.headers (ofString "Sec-WebSocket-Key") then []
-      else [kv "HTTP_SEC_WEBSOCKET_KEY" (ofString "MDAwMDAwMDAwMDAwMDAwMA==")]) ++
-     [kv "HTTP_UPGRADE" (ofString "websocket"), kv "HTTP_CONNECTION" (ofString "upgrade")]) ++
-  [kv "SERVER_SOFTWARE" (r.serverTag.getD []),
-   kv "GATEWAY_INTERFACE" (ofString "CGI/1.1"),
-   kv "REQUEST_SCHEME" r.scheme] ++
-  (if r.scheme = ofString "https" then [kv "HTTPS" (ofString "on")] else []) ++
-  [kv "SERVER_PORT" (serverPort r),
-   kv "SERVER_ADDR" (serverAddr r),
-   kv "SERVER_NAME" (serverNameVar r),
-   kv "REMOTE_ADDR" r.remoteAddr,
-   kv "REMOTE_PORT" (natDec r.remotePort)]
+  (cgiMetaS o r).map fun p => (ofString p.1, p.2)
 
 /-- r->env entries (set by modules: REMOTE_USER, AUTH_TYPE, SSL_*, setenv) -/
 def envVars (es : List (Bytes × Bytes)) : List (Bytes × Bytes) :=
